@@ -46,3 +46,25 @@ Lemma signal_examples :
   terminating_signal 0 = false /\ terminating_signal 65 = false /\
   exit_code_of (Killed 17) = (-17)%Z.
 Proof. vm_compute. repeat split; reflexivity. Qed.
+
+(* WHAT `Raises` MEANS (audit 4, A6): exit_code_of Raises is the exit code of a worker that raises an
+   Exception subclass - and of every raised class except a SystemExit whose code is None or a multiple of 256,
+   which no parent can tell from a normal exit *)
+Lemma raises_means_exception : forall r,
+  (is_exception r = true -> raise_exit_code r = exit_code_of Raises) /\
+  (raise_exit_code r = 0%Z <-> r = RSystemExitNone \/ exists k, r = RSystemExitInt k /\ (k mod 256 = 0)%Z).
+Proof.
+  intros r. split.
+  - destruct r; cbn; intros H; try discriminate H; reflexivity.
+  - split.
+    + destruct r; cbn; intros H; try discriminate H; [left; reflexivity | right; eexists; split; [reflexivity | exact H]].
+    + intros [-> | (k & -> & Hk)]; [reflexivity | exact Hk].
+Qed.
+
+Lemma system_exit_examples :
+  raise_exit_code RException = 1%Z /\ exit_code_of Raises = 1%Z /\
+  raise_exit_code RSystemExitNone = 0%Z /\ raise_exit_code (RSystemExitInt 0) = 0%Z /\
+  raise_exit_code (RSystemExitInt 3) = 3%Z /\ raise_exit_code (RSystemExitInt 256) = 0%Z /\
+  raise_exit_code RSystemExitOther = 1%Z /\ raise_exit_code RBaseException = 1%Z /\
+  is_exception RBaseException = false /\ is_exception RSystemExitNone = false /\ is_exception RException = true.
+Proof. vm_compute. repeat split; reflexivity. Qed.
